@@ -147,11 +147,13 @@ func checkC09(c *Ctx) Meta {
 		checkStep3(c, "C09-STEP3", spec.pkg, spec.label)
 		checkPoppedItem(c, spec.pkg, spec.label)
 		checkListAliasing(c, spec.pkg, spec.label)
+		checkListedOnce(c, spec.pkg, spec.label)
 	}
 	checkOffered(c)
 	c.Rule("C09-OPEN", "registered vs ready on open follows the recorded progress: readiness is derived from map B's checkpoint (HashMapB.Progress compares checkpoint with volume; MassDBV1.Progress forwards that flag; NewWorkSpace stores Ready only under it; OpenDB loads map A unless B's checkpoint is final) — a space whose second pass is unfinished comes up registered, never ready (the C10-READY rules, here as the entry point of the state machine)", 4)
 	checkReadyRules(c, "C09-OPEN")
 	checkMapALoadedByProgressOnly(c, "C09-OPEN")
+	checkRemoveAfterPasses(c, "C09-OPEN") // a stopped plot keeps map A, so its progress stays below 100 and the plotter returns the space to registered
 	return Meta{
 		Explanation: "Extracts every writer of WorkSpace.state and of the per-state indexes from the SSA of both keepers, reconstructs the transitions (old index deleted, new index set, field stored; guard = the index whose membership test dominates the site) and compares the set with the documented table frozen from engine.go; checks the write lock at every state effect of concurrently runnable code, queue clearing before effects, the single plotter, and the flag filter feeding the miner.",
 		NotDecided:  "liveness ('a plotting space eventually becomes ready'), that the popped queue item is the plotting space at all times, linearisation of unlocked state reads by proof queries (a momentarily stale filter is within the property).",
@@ -1273,4 +1275,80 @@ func checkOnStopWaits(c *Ctx, pkg, label string) {
 	default:
 		c.OK(rule, key, c.Pos(f.Pos()), "sk.wg.Wait() on every path")
 	}
+}
+
+// checkListedOnce: a space is in the configured list at most once. Every append to workSpaceList happens in
+// a function that first searches the list for the same id (a loop over workSpaceList with a string
+// equality test from which the append is reachable only when nothing matched). A duplicate entry survives
+// Remove (which deletes the first match), so state queries keep listing a space the actions no longer know.
+func checkListedOnce(c *Ctx, pkg, label string) {
+	rule := "C09-LIST"
+	n := 0
+	var fns []*ssa.Function
+	for fn := range c.AllFuncs {
+		if pkgOf(fn) == pkg {
+			fns = append(fns, fn)
+		}
+	}
+	sort.Slice(fns, func(i, j int) bool { return FuncName(fns[i]) < FuncName(fns[j]) })
+	for _, fn := range fns {
+		for _, a := range fieldAccessesShallow(fn) {
+			if a.Kind != "store" || a.Type != pkg+".SpaceKeeper" || a.Field != "workSpaceList" || isFreshObject(a.Base) {
+				continue
+			}
+			st := a.In.(*ssa.Store)
+			var app *ssa.Call
+			for v := range backSlice(st.Val).vals {
+				if cl, ok := v.(*ssa.Call); ok {
+					if b, isB := cl.Call.Value.(*ssa.Builtin); isB && b.Name() == "append" && cl.Parent() == fn {
+						// an append that extends the list itself (not a rebuild from another slice)
+						if backSlice(cl.Call.Args[0]).hasField(pkg+".SpaceKeeper", "workSpaceList") {
+							app = cl
+						}
+					}
+				}
+			}
+			if app == nil {
+				continue
+			}
+			n++
+			key := fmt.Sprintf("%s:%s:append-behind-membership-test", label, fn.Name())
+			searched := false
+			allInstrs(fn, func(in ssa.Instruction) {
+				bo, ok := in.(*ssa.BinOp)
+				if !ok || (bo.Op != token.EQL && bo.Op != token.NEQ) || !blockReentered(fn, bo) {
+					return
+				}
+				if b, isB := bo.X.Type().Underlying().(*types.Basic); !isB || b.Info()&types.IsString == 0 {
+					return
+				}
+				if !(backSlice(bo.X).hasField(pkg+".SpaceKeeper", "workSpaceList") || backSlice(bo.Y).hasField(pkg+".SpaceKeeper", "workSpaceList")) {
+					return
+				}
+				// the match edge must not reach the append
+				for _, t := range boolTestsOf(fn, bo) {
+					match := t.TrueSucc
+					if bo.Op == token.NEQ {
+						match = t.FalseSucc
+					}
+					r := reach(fn, t.If, func(from, to *ssa.BasicBlock) bool { return from == t.If.Block() && to != match }, nil)
+					if !r(app) && instrDominatesOrReaches(fn, bo, app) {
+						searched = true
+					}
+				}
+			})
+			if searched {
+				c.OK(rule, key, c.Pos(app.Pos()), "the list is searched for the id first; a match skips the append")
+			} else {
+				c.Bad(rule, key, c.Pos(app.Pos()), "a space is appended to the configured list without checking that it is not listed yet: a configuration naming one space twice lists it twice, Remove takes out one entry, and queries keep showing a removed space")
+			}
+		}
+	}
+	if n == 0 {
+		c.Bad(rule, label+":anchor:list-append", "", "reason=anchor-missing: no append to workSpaceList found")
+	}
+}
+
+func instrDominatesOrReaches(fn *ssa.Function, a, b ssa.Instruction) bool {
+	return instrDominates(a, b) || reach(fn, a, nil, nil)(b)
 }
